@@ -4,9 +4,13 @@ import itertools
 
 PROP = "C10"
 LEAN_MODULE = "Ztr.Props.C10"
+LEAN_DEPS = ["Ztr.Props.C10Names"]
 THEOREMS = [
     "Ztr.Layers.C10_once", "Ztr.Layers.C10_bases_first", "Ztr.Layers.C10_perm_invariant",
     "Ztr.Layers.C10_unit_first", "Ztr.Layers.C10_same_name_witness",
+    # Runner.ordered_layers over registered names (several names may resolve to one layer object)
+    "Ztr.Ordered.C10N_names_once", "Ztr.Ordered.C10N_layer_of_name", "Ztr.Ordered.C10N_blocks",
+    "Ztr.Ordered.C10N_bases_first", "Ztr.Ordered.C10N_perm_invariant", "Ztr.Ordered.C10N_D36_witness",
 ]
 RULE = ("layer graphs: every DAG on n nodes (each node picks an ordered subset of earlier nodes as bases) for n up to "
         "a bound, class and instance layers, with/without the real UnitTests layer, names from a pool (shared "
@@ -230,7 +234,94 @@ def order_cases(ctx):
                 break
 
 
+def names_cases(ctx):
+    """Runner.ordered_layers over registered names, several of which may resolve to one layer object (aliases):
+    every registered name is yielded once with its layer, the names of a layer side by side, layers bases-first, and
+    the sequence does not depend on the order of registration (Model/Ordered, Props/C10Names)"""
+    import types
+    import unittest
+    from zope.testrunner import runner as zrunner
+    from zope.testrunner import find as zfind
+    rng = ctx.rng
+    todo = []
+    n_cases = 150 if ctx.quick() else 3000
+    for _ in range(n_cases):
+        w = build_world(random_spec(rng, rng.choice([2, 3, 4, 5, 6])))
+        ls = [i for i in range(len(w.spec)) if rng.random() < 0.7] or [0]
+        canon = w.names()
+        reg = []
+        for l in ls:
+            ways = [canon[l]]
+            # aliases: other dotted names that resolve to the same object
+            for k in range(rng.choice([0, 0, 1, 2])):
+                ways.append(rng.choice(["alias.%s%d_%d", "m.Alias%s%d_%d", "zz.%s_%d_%d", "A.%s%d_%d"]) % (canon[l].split(".")[-1], k, l))
+            if rng.random() < 0.3 and len(ways) > 1:
+                ways = ways[1:]            # only known under aliases
+            for nm in ways:
+                reg.append((nm, l))
+        if len({nm for nm, _ in reg}) != len(reg):
+            continue                       # (the keys of a dict are distinct)
+        rng.shuffle(reg)
+        todo.append((w, reg))
+        sh = list(reg)
+        rng.shuffle(sh)
+        todo.append((w, sh))
+    queries = []
+    for w, reg in todo:
+        q = query(w, [])
+        q.update(op="ordered_layers", regnames=[[ord(c) for c in nm] for nm, _ in reg], layerOf=[l for _, l in reg])
+        queries.append(q)
+    answers = ctx.driver.batch(queries)
+    prev = None
+    for k, ((w, reg), ans) in enumerate(zip(todo, answers)):
+        zfind._layer_name_cache.clear()
+        for o in w.objs:
+            zfind.name_from_layer(o)
+        for nm, l in reg:
+            zfind._layer_name_cache[nm] = w.objs[l]
+        suites = {nm: unittest.TestSuite() for nm, _ in reg}
+        stub = types.SimpleNamespace(options=types.SimpleNamespace(processes=1, resume_layer=None), tests_by_layer_name=suites)
+        try:
+            got = [(nm, w.index[id(layer)], suite is suites[nm]) for nm, layer, suite in zrunner.Runner.ordered_layers(stub)]
+        finally:
+            zfind._layer_name_cache.clear()
+        case = {"spec": w.spec, "registered": reg, "real": [[a, b] for a, b, _ in got], "model": ans}
+        ctx.count(("names", str(w.spec), str(reg)), nontrivial=len({l for _, l in reg}) < len(reg), sample=None)
+        ctx.bump("ordered-layers-over-names")
+        if len({l for _, l in reg}) < len(reg):
+            ctx.bump("aliased")
+        # ---- monitors: the clauses of C10N_* on the real sequence
+        bad = None
+        names = [a for a, _, _ in got]
+        if sorted(names) != sorted(nm for nm, _ in reg):
+            bad = "the names yielded are %r, registered are %r (each must come exactly once)" % (names, sorted(nm for nm, _ in reg))
+        elif any(dict(reg)[a] != b for a, b, _ in got) or not all(c for _, _, c in got):
+            bad = "a name is yielded with another layer or suite than its own: %r" % (got,)
+        else:
+            layers_seq = [b for _, b, _ in got]
+            runs = [l for i, l in enumerate(layers_seq) if i == 0 or layers_seq[i - 1] != l]
+            if len(runs) != len(set(runs)):
+                bad = "the names of one layer are not side by side: layers %r" % (layers_seq,)
+            else:
+                mb = monitor(w, sorted(set(runs)), runs)
+                if mb:
+                    bad = mb
+        if not bad and k % 2 == 1 and prev is not None and [x[:2] for x in got] != prev:
+            bad = "the sequence depends on the order of registration: %r vs %r" % ([x[:2] for x in got], prev)
+        prev = [x[:2] for x in got] if k % 2 == 0 else None
+        if bad:
+            ctx.violation("ordered_layers: " + bad, case, signature="names-order")
+            continue
+        if "error" in ans:
+            ctx.drift("layers.names", "driver error %s" % ans["error"], case)
+            continue
+        model = [("".join(chr(c) for c in n), l) for n, l in ans["yielded"]]
+        if model != [(a, b) for a, b, _ in got]:
+            ctx.drift("layers.names", "model yields %r, real %r" % (model, [(a, b) for a, b, _ in got]), case)
+
+
 def run(ctx):
+    names_cases(ctx)
     order_cases(ctx)
     world_order_cases(ctx)
     twice_order_cases(ctx)
